@@ -63,6 +63,9 @@ class NumpyT(models.NumpyModel):
             return TArr(("abs", x.nf()), shape=x.shape)
         return abs(x)
 
+    def np_ones_like(self, interp, x, **k):
+        return TArr(("ones_like", x.nf()), shape=x.shape, dtype=x.dtype)
+
     def np_arange(self, interp, n, *a, **k):
         return TArr(("arange", str(core.term(n)) if core.is_sym(n) else n), shape=(n,), dtype="int64")
 
